@@ -94,11 +94,11 @@ def add_ecs(cube, ecs, shape, voff=0.0, ishift=None):
         elif kind == "quantity2":
             n1 = shape[axes[1]]
             t0 = (np.arange(n, dtype=float) * 2 + 100 * k) * u.m
-            t1 = (np.arange(n1, dtype=float) ** 2 + 7 * k) * u.m
+            t1 = (np.arange(n1, dtype=float) ** 2 + 7 * k) * u.cm      # equivalent units may differ between the tables
             cube.extra_coords.add(tuple(nm), tuple(axes),
                                   QuantityTableCoordinate(t0, t1, names=tuple(nm), physical_types=(f"custom:qa{k}", f"custom:qb{k}")))
         elif kind == "quantity3":
-            tabs = [(np.arange(shape[a], dtype=float) * (j + 2) + 50 * k + 7 * j) * u.m for j, a in enumerate(axes)]
+            tabs = [(np.arange(shape[a], dtype=float) * (j + 2) + 50 * k + 7 * j) * [u.m, u.cm, u.mm][j] for j, a in enumerate(axes)]
             cube.extra_coords.add(tuple(nm), tuple(axes),
                                   QuantityTableCoordinate(*tabs, names=tuple(nm), physical_types=tuple(f"custom:{x}" for x in nm)))
         elif kind == "sky2d":
@@ -263,6 +263,17 @@ def ec_values(cube, elements):
     if ll.world_n_dim == 1 and not isinstance(vals, (tuple, list)):
         vals = [vals]
     vals = [np.broadcast_to(np.asarray(v, dtype=float), (len(elements),)) for v in vals]
+    # physical values: lengths in metres whatever unit the (possibly re-built) WCS reports them in
+    # (a multi-table Quantity coordinate reports every axis in the unit of its first table, which
+    # changes when that table is sliced away)
+    scale = []
+    for un in ll.world_axis_units:
+        try:
+            q = u.Unit(un)
+            scale.append(float(q.to(u.m)) if q.is_equivalent(u.m) and str(un) not in ("", "m") else 1.0)
+        except Exception:
+            scale.append(1.0)
+    vals = [v * sc if sc != 1.0 else v for v, sc in zip(vals, scale)]
     names = list(ll.world_axis_names)
     if len(vals) != len(names):
         raise RuntimeError(f"{len(vals)} world values for world axes {names}")
